@@ -2,6 +2,7 @@ package world
 
 import (
 	"bytes"
+	banktypes "github.com/cosmos/cosmos-sdk/x/bank/types"
 	"cosmossdk.io/collections"
 	"crypto/sha256"
 	"encoding/binary"
@@ -156,6 +157,7 @@ type Op struct {
 	Pkt      Packet
 	Plan     []bool // recv/msg: fault plan (nil: none)
 	PanicAt  int    // recv: the PanicAt-th external call panics (0: none)
+	From     sdk.AccAddress // send: the sender (deposit and send: To is the recipient)
 	Lie      int64
 	Msg      Msg
 	Q        Query
@@ -724,6 +726,24 @@ func (w *W) RunOp(ctx sdk.Context, op Op) (o OpObs) {
 		} else {
 			o.MsgOK = true
 		}
+	case "send":
+		// a user's bank MsgSend through the application's message router, with baseapp's per-message cache
+		msg := &banktypes.MsgSend{FromAddress: op.From.String(), ToAddress: op.To.String(),
+			Amount: sdk.NewCoins(sdk.NewCoin(op.Denom, math.NewIntFromBigInt(op.Amount)))}
+		cctx, write := ctx.CacheContext()
+		func() {
+			defer func() {
+				if r := recover(); r != nil {
+					o.MsgPan = fmt.Sprint(r)
+				}
+			}()
+			if _, err := w.S.App.MsgServiceRouter().Handler(msg)(cctx, msg); err != nil {
+				o.MsgErr = err.Error()
+			} else {
+				write()
+				o.MsgOK = true
+			}
+		}()
 	case "query":
 		o.QueryV, o.QueryE = w.query(ctx, op.Q)
 	}
@@ -750,6 +770,8 @@ func (o OpObs) V() cq.V {
 		return cq.VL(cq.VZ(cls), cq.VL(tr...), bigsV(o.After.Bals), bigsV(o.After.Supply), o.After.State.V())
 	case "deposit":
 		return cq.VL(bigsV(o.After.Bals), bigsV(o.After.Supply))
+	case "send":
+		return cq.VL(cq.VB(o.MsgOK), bigsV(o.After.Bals), bigsV(o.After.Supply))
 	case "query":
 		if o.QueryE {
 			return cq.VL(cq.VZ(1))
@@ -1057,6 +1079,8 @@ func OpCoq(o OpObs, memoTerm string) string {
 			return fmt.Sprintf("ODeposit %s %s 0", cq.Str(Hex(o.Op.To)), cq.Str(o.Op.Denom))
 		}
 		return fmt.Sprintf("ODeposit %s %s %s", cq.Str(Hex(o.Op.To)), cq.Str(o.Op.Denom), cq.Z(o.Op.Amount))
+	case "send":
+		return fmt.Sprintf("OSend %s %s %s %s", cq.Str(Hex(o.Op.From)), cq.Str(Hex(o.Op.To)), cq.Str(o.Op.Denom), cq.Z(o.Op.Amount))
 	case "query":
 		return "OQuery " + o.Op.Q.Coq()
 	case "callback":
